@@ -116,6 +116,14 @@ func (c *Ctx) ownedBy(field *types.Var, owner string, allowedRoots map[string]st
 			if _, ok := allowedRoots[name]; ok {
 				continue
 			}
+			// a goroutine literal that only wraps the owner (wg.Go(func() {
+			// w.owner() }), go func() { defer ...; w.owner() }()): fn is
+			// reached from it through the owner and in no other way
+			if r.Parent() != nil {
+				if of := c.P.Func(owner); of != nil && c.reachable(r)[of] && !c.reachableWithout(r, of)[fn] {
+					continue
+				}
+			}
 			bad = append(bad, name)
 		}
 		var sites []string
